@@ -320,27 +320,97 @@ def chains(ctx, n):
         ctx.count("chain_len_%d" % (len(vals) - 1))
 
 
-def ignore_order_clause(ctx, n):
-    """ignore_order=True, report_repetition=True on lists of distinct scalars:
-    the result equals t2 up to the order of items (not modelled: direct oracle only)"""
+def plant_ld(rng, depth, pair):
+    """wrap (a, b) identically into `depth` levels of list / dict (no tuples)"""
+    a, b = pair
+    for _ in range(depth):
+        if rng.random() < 0.5:
+            pre = [V.gen_atom(rng) for _ in range(rng.randint(0, 2))]
+            a, b = copy.deepcopy(pre) + [a], copy.deepcopy(pre) + [b]
+        else:
+            key = rng.choice(["k", "k2", 1, 2.5, None])
+            a, b = {key: a, "z": 0}, {key: b, "z": 0}
+    return a, b
+
+
+def io_run(t1, t2):
+    """base + Delta(DeepDiff(ignore_order=True, report_repetition=True)) with the pairings recorded"""
     from deepdiff import DeepDiff, Delta
+    from harness.props import c05 as C5
+    a, b = copy.deepcopy(t1), copy.deepcopy(t2)
+    with C5.Recording() as rec:
+        dd = DeepDiff(a, b, ignore_order=True, report_repetition=True)
+        tbl = C5.pairs_table(rec)
+    d = Delta(dd)
+    with DC.Counting() as cnt:
+        r = copy.deepcopy(t1) + d
+    return dd, d, r, cnt.n, tbl
+
+
+def ignore_order_clause(ctx, n):
+    """ignore_order=True, report_repetition=True on lists of distinct scalars: the result equals t2 up to the
+    order of items.  Direct oracle on every pair; correspondence of the index-map payload and of the rebuilt
+    result with Delta/DeltaIO.v (lists at the root and planted under list / dict levels)."""
+    from harness.props import c05 as C5
     rng = ctx.rng
     pool = [None, True, 2, 3, 0.5, 1.5, "a", "b", "", "ab", b"x", 7, -1]
-    for _ in range(n):
+    cases = []
+    for k in range(n):
         a = rng.sample(pool, rng.randint(0, 7))
-        b = rng.sample(pool, rng.randint(0, 7))
+        if rng.random() < 0.4:       # an edit of a: shares most items, so that pairing and survivors occur
+            b = [x for x in a if rng.random() < 0.7] + rng.sample(pool, rng.randint(0, 3))
+            b = list(dict.fromkeys(b))
+            rng.shuffle(b)
+        else:
+            b = rng.sample(pool, rng.randint(0, 7))
         if V.contains_alias(a, b):
             continue
+        depth = rng.choice([0, 0, 1, 2])
+        t1, t2 = plant_ld(rng, depth, (a, b))
+        if V.contains_alias(t1, t2) or not D.in_model_guard(t1, t2):
+            t1, t2, depth = a, b, 0
         try:
-            r = copy.deepcopy(a) + Delta(DeepDiff(copy.deepcopy(a), copy.deepcopy(b), ignore_order=True, report_repetition=True))
-            good = isinstance(r, list) and sorted(map(repr, map(V.canon_atom, r))) == sorted(map(repr, map(V.canon_atom, b)))
+            dd, d, r, nerr, tbl = io_run(t1, t2)
+            x = r
+            for step in D_path_to(t1, a):
+                x = x[step]
+            good = isinstance(x, list) and sorted(map(repr, map(V.canon_atom, x))) == sorted(map(repr, map(V.canon_atom, b))) and nerr == 0
         except Exception as e:
-            good, r = False, "raised %s: %s" % (type(e).__name__, e)
-        ctx.seen(("io", repr(a), repr(b)), nontrivial=a != b)
+            good, r, d = False, "raised %s: %s" % (type(e).__name__, e), None
+        ctx.seen(("io", repr(t1), repr(t2)), nontrivial=a != b)
         ctx.count("ignore_order_pairs")
+        ctx.count("ignore_order_depth_%d" % depth)
         if not good:
-            ctx.fail(dict(t1=repr(a), t2=repr(b), cfg=dict(ignore_order=True, report_repetition=True), observed=repr(r),
-                          **describe(a, b)), "ignore_order: t1 + delta is not t2 up to order")
+            ctx.fail(dict(t1=repr(t1), t2=repr(t2), cfg=dict(ignore_order=True, report_repetition=True), observed=repr(r),
+                          **describe(t1, t2)), "ignore_order: t1 + delta is not t2 up to order")
+        if d is not None and (ctx.thorough or k % 2 == 0):
+            rem, add = DC.impl_orders(d)
+            conv = DC.conv_table(DC.type_change_pairs(dd.tree))
+            expr = DC.model_io_expr(t1, t2, 0.33, True, C5.coq_pairs_table(tbl), conv, rem, add, t1)
+            exp = [DC.delta_io_obs(d.diff), [DC.canon_unordered(r), nerr > 0]]
+            cases.append((expr, exp, dict(t1=repr(t1), t2=repr(t2), ignore_order=True, report_repetition=True)))
+            if any(ji for _p, ji, _x, _y in tbl):
+                ctx.count("ignore_order_cases_with_pairing")
+            if d.diff.get("iterable_items_added_at_indexes") or d.diff.get("iterable_items_removed_at_indexes"):
+                ctx.count("ignore_order_cases_with_index_maps")
+    ctx.coq_cases("c01io", DC.IO_HDR, cases, shard=16, label="ignore_order payload+apply")
+
+
+def D_path_to(t1, leaf):
+    """keys from the root of a planted value down to the planted list (the last item of a list level, the first
+    key of a dict level)"""
+    out, v = [], t1
+    while v is not leaf and not (isinstance(v, list) and v == leaf and not any(isinstance(x, (list, dict)) for x in v)):
+        if isinstance(v, list):
+            out.append(len(v) - 1)
+            v = v[-1]
+        elif isinstance(v, dict):
+            k = next(iter(v))
+            out.append(k)
+            v = v[k]
+        else:
+            break
+    return out
 
 
 def small_universe_pairs(ctx, thorough):
